@@ -1,0 +1,21 @@
+//go:build verif
+
+// Contracts for contract-based deductive verification (govc, /verif).
+// This file contains comments only; it adds no code to the package.
+
+package handshake
+
+//@ # (ParseAddress is verified in pkg/aurora, C34)
+//@ extern func github.com/gauss-project/aurorafs/pkg/aurora.ParseAddress
+//@   ensures result1 == nil ==> result0 != nil
+//@   ensures result1 != nil ==> result0 == nil
+//@   assigns nothing
+
+//@ # the peer's record from a handshake Ack: accepted only if it parses as an authenticated record for
+//@ # the Ack's own underlay / overlay / signature and this node's network id
+//@ func (*Service).parseCheckAck
+//@   property C34
+//@   requires s != nil && ack != nil && ack.Address != nil
+//@   ensures result1 == nil ==> result0 != nil
+//@   ensures result1 != nil ==> result0 == nil
+//@   callassert aurora.ParseAddress checked-with-the-ack-fields-and-this-network: $networkID == s.networkID && $underlay == ack.Address.Underlay && $overlay == ack.Address.Overlay && $signature == ack.Address.Signature
